@@ -809,7 +809,10 @@ def _operand(args):
 def run_nested(case):
     fk = tuple(case["failk"]) if case.get("failk") else None
     ckey = json.dumps(case, sort_keys=True)
-    cls, counter = nested_class(fk, falsy=_falsy(ckey), noitems=_noitems(ckey))
+    # C19 runs a fault-free twin of a case on the SAME class family: the family may be given explicitly
+    noit = case["noitems"] if "noitems" in case else _noitems(ckey)
+    fal = case["falsy"] if "falsy" in case else _falsy(ckey)
+    cls, counter = nested_class(fk, falsy=fal, noitems=noit)
     del LAST_FIRED[:]
     counter[0] = -10 ** 6     # setup never fails
     obj = cls()
